@@ -6,7 +6,11 @@
 // produced (parsed by an independent reader), and the value it decoded back; or, for
 // independently written documents, the document tree, the value the writer meant, and the
 // value the implementation decoded.  Each input is run under every codec configuration:
-// 0 = default, 1 = a counting codec installed through osm.CustomJSONMarshaler/Unmarshaler.
+// 0 = default, 1 = a counting codec installed through osm.CustomJSONMarshaler/Unmarshaler,
+// 2 = a "reformatting" codec: semantically equal to encoding/json but syntactically different
+// (indented output, no HTML escaping, map entries in descending key order, decoding through a
+// json.Decoder), so that helpers which bypass the configured codec or depend on the bytes it
+// produces are exposed.
 package main
 
 import (
@@ -16,6 +20,7 @@ import (
 	"math/rand"
 	"os"
 	"reflect"
+	"sort"
 	"strconv"
 	"strings"
 	"time"
@@ -39,7 +44,56 @@ func (c *countingCodec) Unmarshal(data []byte, v interface{}) error {
 
 var counting = &countingCodec{}
 
-var configs = []string{"default", "counting"}
+// reformatCodec: same trees as encoding/json, different text.
+type reformatCodec struct{}
+
+func (reformatCodec) Marshal(v interface{}) ([]byte, error) {
+	counting.marshals++
+	var buf bytes.Buffer
+	enc := json.NewEncoder(&buf)
+	enc.SetEscapeHTML(false)
+	if m, ok := v.(map[string]string); ok {
+		keys := make([]string, 0, len(m))
+		for k := range m {
+			keys = append(keys, k)
+		}
+		sort.Sort(sort.Reverse(sort.StringSlice(keys)))
+		buf.WriteString("{ ")
+		for i, k := range keys {
+			if i > 0 {
+				buf.WriteString(" ,\n\t")
+			}
+			if err := enc.Encode(k); err != nil {
+				return nil, err
+			}
+			buf.WriteString(" : ")
+			if err := enc.Encode(m[k]); err != nil {
+				return nil, err
+			}
+		}
+		buf.WriteString(" }")
+		return buf.Bytes(), nil
+	}
+	enc.SetIndent(" ", "\t")
+	if err := enc.Encode(v); err != nil {
+		return nil, err
+	}
+	return buf.Bytes(), nil
+}
+
+func (reformatCodec) Unmarshal(data []byte, v interface{}) error {
+	counting.unmarshals++
+	d := json.NewDecoder(bytes.NewReader(data))
+	if err := d.Decode(v); err != nil {
+		return err
+	}
+	if d.More() {
+		return fmt.Errorf("reformat codec: trailing data")
+	}
+	return nil
+}
+
+var configs = []string{"default", "counting", "reformat"}
 
 func install(cfg int) {
 	switch cfg {
@@ -50,6 +104,10 @@ func install(cfg int) {
 		counting.marshals, counting.unmarshals = 0, 0
 		osm.CustomJSONMarshaler = counting
 		osm.CustomJSONUnmarshaler = counting
+	case 2:
+		counting.marshals, counting.unmarshals = 0, 0
+		osm.CustomJSONMarshaler = reformatCodec{}
+		osm.CustomJSONUnmarshaler = reformatCodec{}
 	}
 }
 
@@ -404,10 +462,13 @@ func goOracle(cfg int, v interface{}, o *obs, base *obs, nElems int) string {
 	if o.uerr != nil {
 		return "the library's own output does not unmarshal: " + o.uerr.Error()
 	}
-	if base != nil && !bytes.Equal(base.text, o.text) {
+	if base != nil && cfg == 1 && !bytes.Equal(base.text, o.text) {
 		return "output differs between codec configurations"
 	}
-	if cfg == 1 {
+	if base != nil && !treeEqual(canonTags(base.tree.clone()), canonTags(o.tree.clone())) {
+		return "output tree differs between codec configurations (beyond tag order)"
+	}
+	if cfg >= 1 {
 		if _, ok := v.(*osm.OSM); ok {
 			if o.m < 1 || o.u < 1+2*nElems {
 				return fmt.Sprintf("installed codec not consulted: %d Marshal calls, %d Unmarshal calls for %d elements", o.m, o.u, nElems)
@@ -429,7 +490,7 @@ func main() {
 	a := wire.ParseArgs()
 	rng := wire.Rng(a.Seed)
 	w := wire.NewWriter("C05", a.Seed, a.Tier)
-	w.Rule = "typed generator over node/way/relation/changeset/note/user/bounds and OSM/Change containers: every optional part present with probability p in {0,0.3,0.7,1} plus single-field sweeps; each value marshalled and its own output unmarshalled under both codec configurations (default, counting custom codec); independently written osmjson documents (version number/string/absent, unknown keys, shuffled keys, random whitespace/escapes) and single-fault documents. distinct = distinct token streams; trivial = all-zero values."
+	w.Rule = "typed generator over node/way/relation/changeset/note/user/bounds and OSM/Change containers: every optional part present with probability p in {0,0.3,0.7,1} plus single-field sweeps; each value marshalled and its own output unmarshalled under three codec configurations (default, counting custom codec, reformatting custom codec); independently written osmjson documents (version number/string/absent, unknown keys, shuffled keys, random whitespace/escapes) and single-fault documents. distinct = distinct token streams; trivial = all-zero values."
 	nOSM, nElem, nDoc, nBad, nChange := 16, 8, 40, 40, 6
 	if a.Tier == "thorough" {
 		nOSM, nElem, nDoc, nBad, nChange = 200, 80, 500, 400, 60
@@ -450,7 +511,7 @@ func main() {
 			if base == nil {
 				base = o
 			}
-			if cfg == 1 {
+			if cfg >= 1 {
 				w.Stats["codec:marshal_calls"] += o.m
 				w.Stats["codec:unmarshal_calls"] += o.u
 			}
@@ -562,7 +623,7 @@ func main() {
 		w.Add(docCase(cfg, doc, nil, decodeDoc(cfg, b.Bytes()), "fault/"+fault))
 	}
 	plantCanaries(w)
-	if err := w.Flush(a.Out, "Verif.C05.Check", 400); err != nil {
+	if err := w.Flush(a.Out, "Verif.C05.Check", 230); err != nil {
 		fmt.Fprintln(os.Stderr, err)
 		os.Exit(1)
 	}
